@@ -7,13 +7,16 @@ set -u
 DIFF=$1; shift
 IDS=${@:-C01 C02 C03 C04 C05 C06 C07 C08 C09 C10 C11 C12 C13 C14 C15 C16 C17 C18 C19 C20}
 export GOFLAGS=-mod=mod GOPROXY=off GOSUMDB=off GOTOOLCHAIN=local
+# the repository's own tests in scratch worktrees use a scratch build cache that is emptied when it has grown
+SCRATCH_CACHE=/tmp/verif-scratch-gocache
+[ -d $SCRATCH_CACHE ] && [ "$(du -sm $SCRATCH_CACHE | cut -f1)" -gt 6000 ] && rm -rf $SCRATCH_CACHE
 WT=/tmp/bt.$$
 git -C /repo worktree add -q --detach $WT HEAD || exit 2
 OUT=/tmp/benignout.$$; mkdir -p $OUT
 cleanup() { git -C /repo worktree remove --force $WT 2>/dev/null; rm -rf $OUT /tmp/benignrun.$$; }
 trap cleanup EXIT
 git -C $WT apply $DIFF || { echo "patch does not apply"; exit 3; }
-( cd $WT/v4 && go build ./... && go test -vet=off -count=1 ./... 2>&1 | tail -6 ) > /tmp/benignrun.$$ 2>&1
+( cd $WT/v4 && GOCACHE=$SCRATCH_CACHE go build ./... && go test -vet=off -count=1 ./... 2>&1 | tail -6 ) > /tmp/benignrun.$$ 2>&1
 grep -q "FAIL\|cannot\|error" /tmp/benignrun.$$ && { echo "suite with change: FAIL"; cat /tmp/benignrun.$$; exit 3; } || echo "suite with change: PASS"
 for id in $IDS; do
   cd /verif && VERIF_REPO=$WT/v4 VERIF_OUT=$OUT timeout 1800 ./run.sh $id ${TIER:-quick} > /tmp/benignrun.$$ 2>&1; rc=$?
